@@ -96,7 +96,13 @@ def rt_from_enc(raws, api, aad, prefix, kseed0=1, wrong_every=0, cs=None):
     return out
 
 
-EDGE_LENGTHS = [0, 1, 2, 65535, 65536, 65537, 131071, 131072, 131073]
+EDGE_LENGTHS = [0, 1, 2, 65535, 65536, 65537, 131071, 131072, 131073,
+                # residues at which the block functions underneath pad or wrap (16 for Poly1305 / ChaCha20 words and blocks, 64 for
+                # ChaCha20 and SHA-256 blocks, 55/56 for SHA-256 padding), alone and on top of one full chunk
+                15, 16, 17, 55, 56, 63, 64, 65, 119, 120, 127, 128, 129, 65536 + 15, 65536 + 16, 65536 + 55, 65536 + 56, 65536 + 64,
+                65536 - 16, 65536 - 17, 65536 - 64, 196608, 1048576,
+                # past the sizes at which an implementation might start to batch (1 MiB, 4 MiB)
+                1048577, 1114113, 2097152 + 17, 4194304 + 3]
 
 
 def production_rt(seed, n, api, prefix, wrong_every=0, passwords=None):
@@ -202,7 +208,11 @@ def c01(pid, tier, seed, selftest=False):
     if not thorough:
         api = api[::3]
     scenarios += api
-    scenarios += production_rt(seed, 400 if thorough else 24, "key", "p.")
+    scenarios += production_rt(seed, 400 if thorough else 44, "key", "p.")
+    # counters crossing a byte boundary: more than 256 chunks (hooked loop, one-byte chunks); thorough: more than 65536
+    for i, plen in enumerate([600] + ([66000] if thorough else [])):
+        e = {"op": "enc", "api": "chunks", "aad": "key", "cs": 1, "plen": plen, "rs": [], "ws": [], "fs": [], "kseed": 60 + i, "pseed": 4, "id": "ctr%d" % i}
+        scenarios.append({"op": "rt", "id": "ctr%d" % i, "enc": e, "dec": {"rs": [], "ws": [], "fs": []}})
     account(rep, scenarios)
     for s in scenarios[:2] + scenarios[-2:]:
         rep.sample(s)
@@ -429,6 +439,14 @@ def c03(pid, tier, seed, selftest=False):
     scenarios += bitflip_scenarios("chunks", "key", [3, 2], "bc.", step=1)
     scenarios += bitflip_scenarios("key", "key", [5], "bk.", step=step)
     scenarios += bitflip_scenarios("pass", "pass", [4], "bp.", step=step * 3 if not thorough else 2)
+    # prefixes that lack only the last byte(s) of the final tag, of files chosen so that a decoder reusing a record buffer
+    # would find the missing byte there anyway (zero, or the previous record's byte at that offset)
+    for j, (api, aad, cs_, chunks, mode) in enumerate([("chunks", "key", 3, [2], "zero"), ("chunks", "pass", 3, [3, 1], "zero"),
+                                                      ("chunks", "key", 3, [3, 2], "prev"), ("key", "key", 65536, [7], "zero"),
+                                                      ("key", "key", 65536, [65536, 1000], "prev"), ("key", "key", 65536, [40, 9], "prev")]):
+        scenarios.append({"op": "dec", "api": api, "aad": aad, "cs": cs_, "srcs": [{"chunks": chunks, "kseed": 3000 + 7000 * j, "pseed": 2}],
+                          "file": {"hsrc": 0, "hdr": "ok", "recs": [{"src": 0, "idx": i} for i in range(len(chunks))], "cut": -1, "trail": 0},
+                          "rs": [], "ws": [], "fs": [], "id": "tz.%d" % j, "edits": ["truncate"], "stale_fill": mode})
     scenarios += truncation_scenarios("chunks", "key", [3, 2, 1], "tc.")
     scenarios += truncation_scenarios("key", "key", [7, 2], "tk.", every=1 if thorough else 3)
     scenarios += truncation_scenarios("pass", "pass", [2], "tp.", every=1 if thorough else 7)
@@ -629,6 +647,21 @@ def c10(pid, tier, seed, selftest=False):
                                                                           splits=0, shorts=1),
                                 "Src121", [("key", "key", 1), ("pass", "pass", 2)])
     scenarios += production_faults(seed, 150 if thorough else 20, "pf.")
+    # runs of CONSECUTIVE transient interruptions (a signal storm): whatever is retried, a success still means everything was
+    # read to the real end of data and written
+    k = 0
+    for n in (2, 15, 16, 17, 33, 64, 200):
+        for api in ("key", "pass"):
+            for pos in (0, 1, 2):
+                aad = "key" if api == "key" else "pass"
+                scenarios.append({"op": "enc", "api": api, "aad": aad, "cs": 65536, "plen": 150000, "rs": ["full"] * pos + ["intr"] * n,
+                                  "ws": [], "fs": [], "kseed": 400 + k, "pseed": 7, "id": "bi.%d" % k})
+                scenarios.append({"op": "enc", "api": api, "aad": aad, "cs": 65536, "plen": 150000, "rs": [], "ws": ["full"] * pos + ["intr"] * n,
+                                  "fs": [], "kseed": 400 + k, "pseed": 7, "id": "bw.%d" % k})
+                scenarios.append({"op": "dec", "api": api, "aad": aad, "cs": 65536, "srcs": [{"chunks": [65536, 65536, 18928], "kseed": 500 + k, "pseed": 9}],
+                                  "file": {"hsrc": 0, "hdr": "ok", "recs": [{"src": 0, "idx": j} for j in range(3)], "cut": -1, "trail": 0},
+                                  "rs": ["full"] * (2 * pos) + ["intr"] * n, "ws": [], "fs": [], "id": "bd.%d" % k})
+                k += 1
     account(rep, scenarios)
     for s in scenarios[:2] + scenarios[len(scenarios) // 2:len(scenarios) // 2 + 1] + scenarios[-1:]:
         rep.sample(s)
@@ -676,7 +709,9 @@ def c11(pid, tier, seed, selftest=False):
         e = {"op": "enc", "api": "chunks", "aad": "key", "cs": 4 if plen <= 65536 else 1024, "plen": plen, "rs": [], "ws": [],
              "fs": [], "kseed": 1, "pseed": 2, "id": "s%d" % i, "store": plen <= 65536, "heapref": True}
         scenarios.append({"op": "rt", "id": "s%d" % i, "enc": e, "dec": {"rs": [], "ws": [], "fs": []}} if plen <= 65536 else e)
-    sizes = [(16 * MiB, "key"), (48 * MiB, "pass")] if not thorough else [(1000 * MiB, "key"), (600 * MiB, "pass"), (64 * MiB, "key")]
+    # thorough: also past 4 GiB (offsets and byte counts that no longer fit 32 bits)
+    sizes = [(16 * MiB, "key"), (48 * MiB, "pass")] if not thorough else [(1000 * MiB, "key"), (600 * MiB, "pass"), (64 * MiB, "key"),
+                                                                          (4096 * MiB + 70001, "key")]
     for i, (plen, api) in enumerate(sizes):
         aad = "key" if api == "key" else "pass"
         scenarios.append({"op": "enc", "api": api, "aad": aad, "cs": 65536, "plen": plen, "rs": [], "ws": [], "fs": [],
